@@ -30,24 +30,24 @@ Definition ex_text : str := [91;49;44;32;50;93]%N.
 Definition ex_val : val := VList [VInt 1; VInt 2].
 Definition ex_yl : str -> lres := case_yload [(ex_text, LVal ex_val)].
 
-Lemma example_guard : guard (chk ex_yl) (TList TInt) ex_text ex_val = true.
+Lemma example_guard : guard (chk as_is ex_yl) (TList TInt) ex_text ex_val = true.
 Proof. vm_compute. reflexivity. Qed.
 
 (* ... and the scalar hypothesis by the text "12" under the scalar model of the loader *)
-Lemma example_denotes : denotes model_yload [49;50]%N (VInt 12).
+Lemma example_denotes : denotes as_is model_yload [49;50]%N (VInt 12).
 Proof. unfold denotes. vm_compute. auto. Qed.
 
 (* ---- the unguarded statements are false of the pinned tree --------------------------------------------------- *)
 (* None where the type does not admit it: the object / document channels store it, the text channels reject *)
 Lemma none_unchecked_witness :
-  let C := chk model_yload in
+  let C := chk as_is model_yload in
   g_reads C TInt [110;117;108;108]%N VNone = true /\ g_fixpt C TInt VNone = true /\
   via_object C TInt VNone = AOk VNone /\ is_ok (via_argv C TInt [110;117;108;108]%N) = false.
 Proof. vm_compute. auto. Qed.
 
 (* a key with a clash-name component: the object / document channels store the value as given *)
 Lemma clash_key_witness :
-  let C := chk model_yload in
+  let C := chk as_is model_yload in
   guard C TFloat [49]%N (VInt 1) = true /\
   run_channel C true ChObject TFloat [49]%N (VInt 1) = AOk (VInt 1) /\
   run_channel C true ChArgv TFloat [49]%N (VInt 1) = AOk (VFloat (FFin 1 0)).
@@ -55,8 +55,8 @@ Proof. vm_compute. auto. Qed.
 
 (* Literal[1, 2] compares with ==: True is taken as an object, the text "true" is not *)
 Lemma literal_eq_witness :
-  let C := chk model_yload in
+  let C := chk as_is model_yload in
   via_object C (TLit [LInt 1; LInt 2]) (VBool true) = AOk (VBool true) /\
   is_ok (via_argv C (TLit [LInt 1; LInt 2]) [116;114;117;101]%N) = false /\
-  guard (chk_lit model_yload) (TLit [LInt 1; LInt 2]) [116;114;117;101]%N (VBool true) = true.
+  guard (chk_lit as_is model_yload) (TLit [LInt 1; LInt 2]) [116;114;117;101]%N (VBool true) = true.
 Proof. vm_compute. auto. Qed.
